@@ -239,6 +239,57 @@ def splineAccepts (pts : List (α × α)) : Bool :=
 
 end generic
 
+/-! ### Part 4: who owns the vertex array of a spline groove
+
+`SplineGroove.__init__` works on ONE local name `contour_points` that starts out as the caller's object.  What the groove
+keeps (`self._contour_points`) describes the same shape as its depth function / contour line / depth for the rest of its
+life only if it is not the caller's memory, and the polyline "it was given" stays what the caller sees only if the
+constructor does not write into the caller's memory.  The statements of `__init__` that decide this are read by the
+translator into a list of `ArrOp`; `ownRun` replays them. -/
+
+/-- one statement of `SplineGroove.__init__`, as far as the identity of the array behind the local name is concerned -/
+inductive ArrOp where
+  /-- `contour_points = np.asarray(contour_points, dtype="float64")`: the caller's array ITSELF when that already is a
+      float64 `ndarray` (any memory layout), a fresh array for every other container -/
+  | asarray
+  /-- `contour_points = contour_points[a:b]` (basic slicing, also under an `if`): a view of the same memory -/
+  | view
+  /-- `contour_points = contour_points[mask]` (boolean / index array): a fresh array -/
+  | select
+  /-- `contour_points = contour_points.copy()` -/
+  | copy
+  /-- `contour_points[:, k] -= …`: writes into whatever memory the local name refers to -/
+  | write
+  /-- `self._contour_points = contour_points` -/
+  | store
+  deriving Repr, DecidableEq, Inhabited
+
+structure Own where
+  /-- the local name refers to the caller's memory -/
+  localIsCallers : Bool := true
+  /-- the constructor wrote into the caller's memory -/
+  callerWritten : Bool := false
+  /-- the groove's vertex array is the caller's memory -/
+  storedIsCallers : Bool := false
+  /-- a vertex array was stored at all -/
+  stored : Bool := false
+  deriving Repr, DecidableEq, Inhabited
+
+def ownStep (inputIsF64Array : Bool) (s : Own) : ArrOp → Own
+  | .asarray => { s with localIsCallers := s.localIsCallers && inputIsF64Array }
+  | .view => s
+  | .select => { s with localIsCallers := false }
+  | .copy => { s with localIsCallers := false }
+  | .write => { s with callerWritten := s.callerWritten || s.localIsCallers }
+  | .store => { s with storedIsCallers := s.localIsCallers, stored := true }
+
+/-- replay of the statement list for a caller who hands over a float64 `ndarray` (`true`) or any other container -/
+def ownRun (inputIsF64Array : Bool) (ops : List ArrOp) : Own := ops.foldl (ownStep inputIsF64Array) {}
+
+/-- what `groove.contour_points` shows when the caller's memory meanwhile holds `callerNow` and the array the constructor
+    allocated holds `own` -/
+def grooveReads {β : Type} (o : Own) (callerNow own : β) : β := if o.storedIsCallers then callerNow else own
+
 /-- one insertion of a vertex on an existing segment (`p.1 < r.1 < q.1`, `r` on the chord `p q`), anywhere in the list -/
 inductive Refine1 {α : Type} (onChord : α × α → α × α → α × α → Prop) : List (α × α) → List (α × α) → Prop where
   | here (p q r : α × α) (rest : List (α × α)) : onChord p q r →
